@@ -551,6 +551,42 @@ func scanManagers(repo string, storeWriters map[string]bool) []mgrRow {
 			parsed[sp.dir] = files
 		}
 		found := false
+		// helper methods of the type that write the cache and make no store call (found
+		// automatically, e.g. a setter extracted by a refactoring): a call of one of them through
+		// the receiver is a cache write of the calling method
+		autoSetters := map[string]bool{}
+		for _, f := range files {
+			for _, d := range f.Decls {
+				fd, ok := d.(*ast.FuncDecl)
+				if !ok || fd.Body == nil || recvName(fd) != sp.typ {
+					continue
+				}
+				rv := recvVar(fd)
+				writes, stores := false, false
+				ast.Inspect(fd.Body, func(n ast.Node) bool {
+					if n == nil {
+						return true
+					}
+					if ce, ok := n.(*ast.CallExpr); ok {
+						if s, ok := ce.Fun.(*ast.SelectorExpr); ok {
+							recvS := selString(s.X)
+							for _, st := range sp.store {
+								if (recvS == rv+"."+st || strings.HasSuffix(recvS, "."+st)) && storeWriters[s.Sel.Name] {
+									stores = true
+								}
+							}
+						}
+					}
+					if sp.cacheSet(n, rv) {
+						writes = true
+					}
+					return true
+				})
+				if writes && !stores {
+					autoSetters[fd.Name.Name] = true
+				}
+			}
+		}
 		for _, f := range files {
 			for _, d := range f.Decls {
 				fd, ok := d.(*ast.FuncDecl)
@@ -579,6 +615,10 @@ func scanManagers(repo string, storeWriters map[string]bool) []mgrRow {
 					}
 					if sp.cacheSet(n, rv) {
 						cachePos = append(cachePos, n.Pos())
+					} else if ce, ok := n.(*ast.CallExpr); ok {
+						if s, ok := ce.Fun.(*ast.SelectorExpr); ok && selString(s.X) == rv && autoSetters[s.Sel.Name] && s.Sel.Name != fd.Name.Name {
+							cachePos = append(cachePos, n.Pos())
+						}
 					}
 					return true
 				})
@@ -630,6 +670,27 @@ func scanManagers(repo string, storeWriters map[string]bool) []mgrRow {
 // store.UpdateChainState and the calls between that statement and the assignment of m.index.
 func scanSync(repo string) (inTxn, between []string) {
 	files := parseDir(filepath.Join(repo, "index"))
+	// methods of Manager whose body assigns the receiver's index field: a call of one of them
+	// counts as the assignment of m.index (the assignment may live in a helper)
+	tipSetters := map[string]bool{}
+	for _, f := range files {
+		for _, d := range f.Decls {
+			fd, ok := d.(*ast.FuncDecl)
+			if !ok || fd.Body == nil || recvName(fd) != "Manager" || fd.Name.Name == "syncDB" {
+				continue
+			}
+			ast.Inspect(fd.Body, func(n ast.Node) bool {
+				if as, ok := n.(*ast.AssignStmt); ok {
+					for _, l := range as.Lhs {
+						if selString(l) == recvVar(fd)+".index" {
+							tipSetters[fd.Name.Name] = true
+						}
+					}
+				}
+				return true
+			})
+		}
+	}
 	for _, f := range files {
 		for _, d := range f.Decls {
 			fd, ok := d.(*ast.FuncDecl)
@@ -646,6 +707,8 @@ func scanSync(repo string) (inTxn, between []string) {
 							fatal("syncDB: more than one store.UpdateChainState call")
 						}
 						txCall = n
+					} else if ok && selString(s.X) == recvVar(fd) && tipSetters[s.Sel.Name] && txCall != nil && n.Pos() > txCall.End() && tipAssign == 0 {
+						tipAssign = n.Pos()
 					}
 				case *ast.AssignStmt:
 					for _, l := range n.Lhs {
